@@ -14,12 +14,16 @@ LEVEL = ("Coq theorems over the executable state machine Model/Stream.v on a hea
          "every live stream are unchanged by any later operation, incl. value()), proved from the frame invariant that every step "
          "only extends the heap and the stream table (step_frame) ; remove_preserves_input (the cleaner writes no existing object). "
          "Model tied to the code by exact comparison after every step of every live stream, incl. the object graph (which objects "
-         "are shared, which are new, which non-field attributes they carry).")
+         "are shared, which are new, which non-field attributes they carry). Oracles on the code alone: 'immutable' (dump, item type, "
+         "the _q_metadata carried by the nodes of the query AST and lookup_query_metadata of every key of the history, of every live "
+         "stream, equal their first observation after every later step), 'item-type', 'independent' (every stream equals the one "
+         "built by the operations of its own derivation path alone).")
 TRUSTED = sc.TRUSTED_COMMON
 ASSUME = sc.ASSUME_COMMON
 RULE = ("corpus (F13 witnesses, shared prebuilt lambdas, joins) + all histories of length <= N over a 9-operation alphabet acting on "
         "any live stream + seeded random histories (<= 40 operations, <= 3 datasets, typed and untyped, callbacks adding metadata, "
-        "sync and async value with interleaved completions); a history is non-trivial when it has >= 3 streams and a value or "
+        "sync and async value with interleaved completions); QMetaData lands on tops with and without query metadata, on dataset "
+        "roots and derived streams, shared with 0, 1, >= 2 other live streams (histogram qmd_target); a history is non-trivial when it has >= 3 streams and a value or "
         "QMetaData operation; distinct by its JSON")
 
 ALPHABET = [
@@ -55,6 +59,22 @@ CORPUS = [
     [{"op": "ds", "ty": "Evt"}, {"op": "qmd", "s": 0, "kv": [["a", 2]]}, {"op": "qmd", "s": 1, "kv": [["b", 3]]},
      {"op": "der", "s": 2, "kind": "Where", "lam": "lambda e: e.met() > 10"}, {"op": "qmd", "s": 3, "kv": [["a", 3]]},
      {"op": "qmd", "s": 3, "kv": [["a", 2]]}, {"op": "der", "s": 0, "kind": "Where", "lam": "lambda e: e.met()"}],
+    # QMetaData on a derived stream whose top node carries no query metadata yet, with an earlier child of that stream alive;
+    # then a sibling QMetaData from the same parent, an execution of one branch, a late child; second dataset: on the root first
+    [{"op": "ds", "ty": "Evt"}, {"op": "der", "s": 0, "kind": "SelectMany", "lam": "lambda e: e.jets()"},
+     {"op": "der", "s": 1, "kind": "Where", "lam": "lambda j: j.pt() > 5"}, {"op": "der", "s": 2, "kind": "Select", "lam": "lambda j: j.pt()"},
+     {"op": "qmd", "s": 2, "kv": [["a", "v1"]]}, {"op": "qmd", "s": 2, "kv": [["b", "22"]]},
+     {"op": "der", "s": 4, "kind": "Select", "lam": "lambda j: j.pt()"}, {"op": "val", "s": 6, "ov": None, "title": None, "res": ["R", "r1"]},
+     {"op": "der", "s": 2, "kind": "Select", "lam": "lambda j: j.pt()"},
+     {"op": "ds", "ty": "Any"}, {"op": "qmd", "s": 8, "kv": [["c", "x"]]}, {"op": "der", "s": 9, "kind": "Select", "lam": "lambda e: e.x"},
+     {"op": "qmd", "s": 10, "kv": [["a", "v2"]]}],
+    # the same on tops made by MetaData, a terminal and Where; the bare dataset root with two children and two QMetaData branches
+    [{"op": "ds", "ty": "Any"}, {"op": "md", "s": 0, "val": {"m": 2}}, {"op": "der", "s": 1, "kind": "Select", "lam": "lambda e: e.x"},
+     {"op": "qmd", "s": 1, "kv": [["a", 2]]}, {"op": "qmd", "s": 1, "kv": [["b", 3]]},
+     {"op": "term", "s": 2, "m": "AsAwkwardArray", "args": {}}, {"op": "qmd", "s": 5, "kv": [["a", 3]]}, {"op": "qmd", "s": 5, "kv": [["a", "y"]]},
+     {"op": "der", "s": 0, "kind": "Where", "lam": "lambda e: e.x > 1"}, {"op": "qmd", "s": 0, "kv": [["c", None], ["a", 2]]},
+     {"op": "qmd", "s": 0, "kv": [["b", "x"]]}, {"op": "vs", "s": 9, "ov": None, "title": None}, {"op": "qmd", "s": 8, "kv": [["a", "2"]]},
+     {"op": "vf", "c": 0, "res": ["R", "r2"]}],
 ]
 
 
